@@ -45,6 +45,9 @@ _VALID_TEXT_OUTPUT = attribute_util.string_from_list({"Emit", "Skip"})
 
 def _valid_back_ends(attr, module_source_file):
     """Checks that `attr` holds a valid list of back end specifiers."""
+    string_errors = attribute_util.STRING(attr, module_source_file)
+    if string_errors:
+        return string_errors
     if not re.fullmatch(
         r"(?:\s*[a-z][a-z0-9_]*\s*(?:,\s*[a-z][a-z0-9_]*\s*)*,?)?\s*",
         attr.value.string_constant.text,
